@@ -123,6 +123,16 @@ CHECKS = {
              'data, random_subset and dask are not covered.',
         technique='TLA+ spec as enumerator and index-bookkeeping oracle + exact rational statistics + replay into real Data',
         design='7/C10'),
+    'C16': dict(
+        text='Frb.tla: for reference/source datasets linked pixel-to-pixel by integer scale, offset and axis permutation (2-d and '
+             '1-d sources, a second source with another map), TLC computes with integer arithmetic the nearest source pixel or OUT '
+             'for every sample of every bounds tuple (scalar and ranged, partly and wholly outside) and enumerates every sequence of '
+             'value/membership requests on either source under one cache identifier; each sequence runs on real linked Data through '
+             'compute_fixed_resolution_buffer with and without cache_id and every buffer must equal the TLC result.',
+        note='Bounded: 4 frame configurations, 5 bounds tuples, 40 requests, sequences <= 2 (3 thorough). Sample positions on a '
+             '1/8-pixel grid away from rounding ties. Image-viewer layer states are not driven yet.',
+        technique='TLA+ spec + TLC (history-independence requirement) + replay of request sequences into real FRB',
+        design='7/C16'),
 }
 
 NOT_APPLICABLE = {}
